@@ -57,6 +57,8 @@ def gen(rng, tier, k=None):
         cfg['layers'][i] = layers[i][:3] + (0,)
     if rng.random() < 0.5:
         cfg['explicit_pipe_group'] = True
+    if rng.random() < 0.4:
+        cfg['grad_scale'] = rng.choice([1024.0, 65536.0, 0.5])       # loss scaling must leave the factors (hence everything) unchanged
     if k is not None and k % 7 == 5:
         # stratum: inputs correlated across the model-parallel halves, small damping, clipping that binds, row-parallel layers:
         # the per-rank partial sums <V, D> of a positive quadratic form then have both signs
